@@ -451,12 +451,12 @@ func poll(d time.Duration, f func() bool) bool {
 // more deadlines) before it is declared a failure: on a loaded machine a goroutine can be
 // starved for seconds, and a handler that is merely slow must not be reported as stuck. The
 // budget keeps a run with many genuinely stuck cases from taking forever.
-var longWaits int32 = 40
+var longWaits int32 = 16
 
 func extend() bool { return atomic.AddInt32(&longWaits, -1) >= 0 }
 
 // ResetWaitBudget restores the extension budget (before a sequential re-run).
-func ResetWaitBudget() { atomic.StoreInt32(&longWaits, 40) }
+func ResetWaitBudget() { atomic.StoreInt32(&longWaits, 16) }
 
 // Within runs f and reports whether it returned within d (extended once, see longWaits).
 func Within(d time.Duration, f func()) bool {
